@@ -21,6 +21,7 @@ DIAG = "diagnostic path (arguments of trace! / debug-only instruction trace): de
 OFFS = "byte offsets computed by char_indices()/len() of the same string with start <= end (char_substring_offset / nth); units checked by R15a"
 
 TRIAGE = [
+    (r"^vm::compile::<Vm>::transform_procedure_application$", r"unwrap", "under rest.is_list(): Cell::is_list holds only for a non-empty proper list, which has a car and a cdr", r"cell::Cell::c[ad]r\(v:Cell\)"),
     (r"^number::approximate$", r"ratio", "arbitrary-precision rationals: the product cannot overflow, and the quotient is formed only in the arm "
      "whose guard found the divisor's numerator non-zero (the zero-divisor case takes the float arm below it)"),
     (r"^vm::heap::payload$", r"DivisionByZero", "the divisor is size_of::<VCell>(), the size of a non-empty enum: not zero"),
